@@ -251,8 +251,10 @@ func decryptSymmetricAEAD(aead cipher.AEAD, ciphertext []byte, nonce []byte, tag
 	}
 
 	// Add the tag at the end of the ciphertext
-	ciphertext = append(ciphertext, tag...)
-	return aead.Open(nil, nonce, ciphertext, associatedData)
+	// This uses a new slice: appending to ciphertext could write into spare capacity owned by the caller
+	ciphertextAndTag := make([]byte, 0, len(ciphertext)+len(tag))
+	ciphertextAndTag = append(append(ciphertextAndTag, ciphertext...), tag...)
+	return aead.Open(nil, nonce, ciphertextAndTag, associatedData)
 }
 
 func encryptSymmetricAESKW(plaintext []byte, algorithm string, key []byte) (ciphertext []byte, err error) {
@@ -311,8 +313,10 @@ func decryptSymmetricChaCha20Poly1305(ciphertext []byte, algorithm string, key [
 	}
 
 	// Add the tag at the end of the ciphertext
-	ciphertext = append(ciphertext, tag...)
-	return aead.Open(nil, nonce, ciphertext, associatedData)
+	// This uses a new slice: appending to ciphertext could write into spare capacity owned by the caller
+	ciphertextAndTag := make([]byte, 0, len(ciphertext)+len(tag))
+	ciphertextAndTag = append(append(ciphertextAndTag, ciphertext...), tag...)
+	return aead.Open(nil, nonce, ciphertextAndTag, associatedData)
 }
 
 func getChaCha20Poly1305Cipher(algorithm string, key []byte, nonce []byte) (aead cipher.AEAD, err error) {
